@@ -196,6 +196,18 @@ def refAux (e : Char) (d : Str) (tr : Bool) : Option Nat → Nat → Str → Str
       else halveIf tr e cur :: refAux e d tr (decLim lim) (d.length - 1) [] s
     else refAux e d tr lim 0 (cur ++ [c]) s
 
+/-- **The class of the open finding C17-j**, decided by the same scan: while real cuts are limited
+and still allowed, a delimiter is met that is escaped (the current item ends with an odd run). -/
+def escWithin (e : Char) (d : Str) : Option Nat → Nat → Str → Str → Bool
+  | _, _, _, [] => false
+  | lim, skip + 1, cur, _ :: s => escWithin e d lim skip cur s
+  | lim, 0, cur, c :: s =>
+    if startsWith (c :: s) d then
+      if !canSplit lim then false
+      else if run e cur % 2 = 1 then (lim.isSome || escWithin e d lim (d.length - 1) (cur.dropLast ++ d) s)
+      else escWithin e d (decLim lim) (d.length - 1) [] s
+    else escWithin e d lim 0 (cur ++ [c]) s
+
 /-- the reference with the argument conventions of `splitWithEscape` -/
 def splitRef (s d : Str) (m : Nat) (esc : Option Char) (tr : Bool) : PyM (List Str) :=
   if d = [] then .error .ValueError else
